@@ -169,7 +169,7 @@ CEN_RULE = ('random graphs of all 8 kinds, 1..size nodes (plus a few with 21-36 
 PROPS.update({
     'C05': dict(
         extra_modules=['GraphrsModel.Props.C05Full'],
-        gens=[('cen', 'small', 1500, 25000, 8), ('cen', 'parallel', 20, 200, 36)],
+        gens=[('cen', 'small', 1500, 25000, 8), ('cen', 'parallel', 20, 200, 36), ('cen', 'diamond', 12, 150, 0)],
         spec_fields=[r'bc0:q', r'bc1:q'], model_fields=[r'build', r'bc0:q', r'bc1:q'],
         nontrivial=cen_nontrivial, hist=cen_hist, rule=CEN_RULE,
         assumptions=COMMON_ASSUME + ['f64 rounding of the accumulation is not modelled: values are compared with relative tolerance 1e-9'],
@@ -296,7 +296,8 @@ def gnpstat_check(req, I):
     allow = expect / max(n - 1, 1) + 4.5 * math.sqrt(pairs * p * (1 - p) / count)
     if abs(mean - expect) > allow:
         out.append({'field': 'gnpstat.mean', 'impl': f'mean edges {mean:.3f} over {count} seeds', 'spec': f'{expect:.3f} +- {allow:.3f}'})
-    if n <= 12 and count >= 300 and p >= 0.3 and int(I['union']) != pairs:
+    # a pair that can occur (probability >= p per draw) is missing from `count` independent draws with probability <= (1-p)^count
+    if n <= 40 and 0 < p < 1 and pairs * (1 - p) ** count < 1e-9 and int(I['union']) != pairs:
         out.append({'field': 'gnpstat.union', 'impl': f'{I["union"]} distinct pairs seen', 'spec': f'all {pairs} pairs can occur'})
     return out
 
@@ -314,7 +315,7 @@ def gen_hist(req, I):
 
 PROPS.update({
     'C16': dict(
-        extra_modules=['GraphrsModel.Props.C16Store'],
+        extra_modules=['GraphrsModel.Props.C16Store', 'GraphrsModel.Props.C16Dist'],
         thorough_scale=1.5,
         gens=[('complete', '-', 120, 600, 14), ('karate', '-', 1, 1, 0), ('gnp', 'small', 1500, 25000, 40), ('gnp', 'sparse', 4000, 60000, 40), ('gnp', 'large', 40, 400, 300),
               ('gnpstat', '-', 40, 300, 0)],
